@@ -26,7 +26,7 @@ if os.path.exists(wf):
     why = json.load(open(wf))
 print('| change | where | verdict | by check | first failed obligation / reason for the miss |')
 print('|---|---|---|---|---|')
-tot = det = 0
+tot = det = other = 0
 for d in sorted(glob.glob(os.path.join(V, 'seeded', 'C*', '[0-9]*')), key=lambda p: (p.split('/')[-2], int(p.split('/')[-1]))):
     pid, k = d.split('/')[-2], int(d.split('/')[-1])
     patch = open(os.path.join(d, 'patch.diff')).read()
@@ -36,10 +36,13 @@ for d in sorted(glob.glob(os.path.join(V, 'seeded', 'C*', '[0-9]*')), key=lambda
     verdict, chk, names = res.get((pid, k), ('not run', pid, []))
     tot += 1
     if verdict == 'DETECTED':
-        det += 1
+        if chk == pid:
+            det += 1
+        else:
+            other += 1
         note = '; '.join(names)
     else:
         note = why.get(f'{pid}/{k}', '')
     print(f'| {pid}/{k} | {where} | {verdict.lower()} | {chk} | {note} |')
 print()
-print(f'{det} of {tot} stored changes are reported by the check of their property.')
+print(f'{det} of {tot} stored changes are reported by the check of their property' + (f', {other} more by the check of another property (column "by check")' if other else '') + '.')
